@@ -92,8 +92,13 @@ fn panic_file(info: &str) -> String {
     // "<file>:<line> <message>" -> file relative to the repository, without the line
     let loc = info.split(' ').next().unwrap_or("");
     let file = loc.rsplitn(2, ':').nth(1).unwrap_or(loc);
-    let file = file.strip_prefix("/repo/").unwrap_or(file);
-    if let Some(i) = file.find("/verif/") {
+    // independent of where the repository is checked out
+    for krate in ["/air/src/", "/prover/src/", "/verifier/src/", "/fri/src/", "/crypto/src/", "/math/src/", "/utils/core/src/"] {
+        if let Some(i) = file.rfind(krate) {
+            return file[i + 1..].to_string();
+        }
+    }
+    if let Some(i) = file.find("/harness/src/") {
         return file[i + 1..].to_string();
     }
     file.to_string()
